@@ -274,8 +274,23 @@ impl Expr {
 
                 let rhs = rhs.for_type(flags)?;
 
-                lhs.get_output_type(&rhs, op, flags)
-                    .with_context(|| format!("invalid operation: {} {} {}", lhs, op.symbol(), rhs))
+                let output = lhs
+                    .get_output_type(&rhs, op, flags)
+                    .with_context(|| format!("invalid operation: {} {} {}", lhs, op.symbol(), rhs))?;
+
+                // `x += 1.5` on an `int`: the result is stored back into the target, so it must fit its type
+                if op.is_op_assign()
+                    && !lhs
+                        .disregard_distractors(false)
+                        .eq_complex(output.disregard_distractors(false), flags)
+                {
+                    bail!(
+                        "{} would store a value of type `{output}` into a target of type `{lhs}`",
+                        op.symbol()
+                    )
+                }
+
+                Ok(output)
             }
             Expr::UnaryMinus(val) => {
                 let ty = val.for_type(flags)?;
